@@ -39,6 +39,7 @@ func init() {
 	})
 	c08Hist = eng.NewKind(c, "history", judgePure)
 	c08Refusal = eng.NewKind(c, "refusal-then-reuse", judgeRefusal)
+	c08Names = eng.NewKind(c, "many-names", judgeManyNames)
 }
 
 type poolEntry struct {
@@ -208,6 +209,10 @@ var c08Pool = func() []poolEntry {
 	for _, s := range []string{"prix_entre\u0301e * 2", "\u0301x + 1", "a\u0663 + 1", "\u0663a + 1", "\u00e9t\u00e9 + 1", "x\u200c + 1", "\u200cx + 1", "\u4e2d\u6587 + 1", "a\u0300\u0301 + \u00e9", "\u0300", "\u0663", "_\u0663 + $\u0301",
 		"\u09e6x", "x\u09e6 + 1", "\u0903a", "a\u0903 + 1", "\uff11x", "x\uff11 + 1", "\u203fx", "x\u203f + 1"} {
 		pool = append(pool, poolEntry{src: s, data: c08With("prix_entre\u0301e", 3.0, "a\u0663", 1.0, "\u00e9t\u00e9", 2.0, "x\u200c", 4.0, "\u4e2d\u6587", 5.0, "a\u0300\u0301", 6.0, "\u00e9", 7.0, "_\u0663", 8.0, "x\u09e6", 9.0, "a\u0903", 10.0, "x\uff11", 11.0, "x\u203f", 12.0)})
+	}
+	// numbers whose exponent is beyond every range (refused) next to ordinary exponents, as literals and as text
+	for _, s := range []string{"1e99999999999999999999 + 1", "7e-99999999999999999999", "toFloat('1e99999999999999999999')", "1.5e3 + 1", "toFloat('2.5e1') + ('2.5e1' * 2)", "25e-1 == 2.5", "1e400 + 1e-400"} {
+		pool = append(pool, poolEntry{src: s, data: c08Data})
 	}
 	// one name, several functions: what a call does depends on the function the name holds now, not on
 	// what was called under that name before (same number of parameters, different shapes)
@@ -643,6 +648,48 @@ func judgeRefusal(c PureCase) *eng.Fail {
 	return nil
 }
 
+// NamesCase: From..To distinct names of one length, each parsed, analysed and evaluated in one process: the
+// tree of every text carries its own name (whatever the names before it were).
+type NamesCase struct {
+	From, To int
+	Style    int
+}
+
+var c08Names *eng.Kind[NamesCase]
+
+func c08Name(style, i int) string {
+	switch style {
+	case 0:
+		return fmt.Sprintf("k%07x", uint32(i)*2654435761>>4)
+	case 1:
+		w := []string{"team", "dept", "rate", "week", "code", "open", "year", "unit", "cost", "item", "size", "rank", "page", "node", "user", "zone"}
+		return w[i&15] + "_" + w[(i>>4)&15] + "_" + w[(i>>8)&15] + "_" + w[(i>>12)&15] + "_" + w[(i>>16)&15]
+	}
+	return fmt.Sprintf("$v%06d", i)
+}
+
+func judgeManyNames(c NamesCase) *eng.Fail {
+	r := formula.NewRunner()
+	for i := c.From; i < c.To; i++ {
+		name := c08Name(c.Style, i)
+		src := name + " + 1"
+		p := safeParse([]byte(src))
+		if p.panicked || p.err != nil {
+			return eng.F("C08/many-names", "%s: %v %s", src, p.err, p.panicMsg)
+		}
+		r.SetThis(map[string]interface{}{name: float64(i)})
+		o := safeResolve(r, bg, p.src.Expression)
+		if got, ok := o.val.(float64); o.panicked || o.err != nil || !ok || got != float64(i)+1 {
+			return eng.F("C08/many-names", "%s with %s = %d evaluates to %s (%v %s) after %d other names of the same length were parsed in this process; alone it is %d", src, name, i, show(o.val), o.err, o.panicMsg, i-c.From, i+1)
+		}
+		if fs, err := formula.ResolveReferenceFields(p.src); err != nil || len(fs) != 1 || fs[0] != name {
+			return eng.F("C08/many-names", "%s: fields %v (%v) after %d other names of the same length were parsed in this process", src, fs, err, i-c.From)
+		}
+	}
+	outcome("many-names")
+	return nil
+}
+
 func tail200(s string) string {
 	if len(s) > 600 {
 		return s[:600] + "..."
@@ -675,6 +722,23 @@ func runC08(w *eng.W) {
 		w.Trace(1)
 		w.Note("leg:refusal-then-reuse", 1)
 		c08Refusal.Do(w, PureCase{})
+	}
+	// hundreds of thousands of distinct names of one length in one process (a table of names keyed by
+	// anything shorter than the name itself has met two names under one key by then)
+	for style := 0; style < 3; style++ {
+		n := 400000
+		if style == 2 {
+			n = 100000
+		}
+		if w.Take() {
+			c := NamesCase{From: 0, To: n, Style: style}
+			w.State(int64(n))
+			w.Trans(int64(3 * n))
+			w.Trace(1)
+			w.Note("leg:many-names", 1)
+			w.Sample("many-names", c)
+			c08Names.Do(w, c)
+		}
 	}
 	// every ordered pair
 	for _, a := range ops {
